@@ -261,11 +261,29 @@ def r5(tree, rep):
               key="C04.R5:text-repr")
 
 
+def r6(tree, rep):
+    """(a) a transit record that is replayed, dropped or reordered ends the transfer (the receiver's byte count and hash would
+    otherwise be reached with the wrong bytes); (b) nothing is created on disk before the offer is accepted: the staging file
+    is opened only after the free-space check and the permission prompt returned"""
+    from .C06 import nonce_guard
+    nonce_guard(tree, rep, rule="C04.R6")
+    hf = tree.func(RX, "Receiver", "_handle_file")
+    g = build(hf)
+    opens = g.call_nodes(lambda c: dotted(c.func) == "open")
+    ask = g.call_nodes(lambda c: dotted(c.func) == "self._ask_permission")
+    free = g.call_nodes(lambda c: dotted(c.func) == "estimate_free_space")
+    ok = len(opens) == 1 and len(ask) == 1 and not g.precedes(ask, opens) and (not free or not g.precedes(free, opens))
+    rep.check("C04.R6", "_handle_file opens the staging file only after the free-space check and _ask_permission() returned", ok, site(hf, RX),
+              key="C04.R6:_handle_file:open-after-permission",
+              what="a refused offer (answer 'n', too little space) already created / truncated <destination>.tmp")
+
+
 def run(tree, rep, tier):
     r1_r3(tree, rep)
     r2(tree, rep)
     r4(tree, rep)
     r5(tree, rep)
+    r6(tree, rep)
 
 
 TR = "src/wormhole/transit.py"
